@@ -25,6 +25,7 @@ import (
 	"regexp"
 	"strings"
 	"sync"
+	"syscall"
 	"time"
 
 	"verif/mc/core"
@@ -90,15 +91,24 @@ func goBuild(cgo string, args ...string) error {
 	return nil
 }
 
-// Build instruments /repo's working tree and builds both binaries.
+// Build instruments /repo's working tree and builds both binaries. Checks
+// C18 and C16 (schedule dimension) both call it, possibly at the same time
+// from two `check` processes: an exclusive lock on build/.sched-build.lock
+// serialises them (the second one finds everything up to date).
 func Build() (*instrument.Stats, error) {
+	if lk, err := os.OpenFile(filepath.Join(buildDir(), ".sched-build.lock"), os.O_CREATE|os.O_RDWR, 0o644); err == nil {
+		if syscall.Flock(int(lk.Fd()), syscall.LOCK_EX) == nil {
+			defer syscall.Flock(int(lk.Fd()), syscall.LOCK_UN)
+		}
+		defer lk.Close()
+	}
 	cfg := instrument.Default()
 	st, err := instrument.Run(cfg)
 	if err != nil {
 		return nil, fmt.Errorf("instrumenter: %v", err)
 	}
 	if len(st.Mutants) > 0 {
-		fmt.Printf("C18: VERIF_MUTANT_DIR=%s replaces %v (demo mode: NOT the tree in /repo)\n", cfg.MutantDir, st.Mutants)
+		fmt.Printf("instrumented build: VERIF_MUTANT_DIR=%s replaces %v (demo mode: NOT the tree in /repo)\n", cfg.MutantDir, st.Mutants)
 	}
 	var wg sync.WaitGroup
 	var e1, e2 error
